@@ -15,7 +15,8 @@ RULE = ("the full product: status in {None,200,201,202,204,301,400,401,403,404,5
         "style {document wrapped, document bare, rpc}; enumerated exhaustively in both tiers; non-trivial = every cell "
         "except status 200 + normal body; distinct = distinct cells"
         ' ; UTF-16 bodies; the description of a non-200 reply reported as delivered on every path'
-        ' ; an injection dict used for two calls')
+        ' ; an injection dict used for two calls'
+        ' ; white space before / around a document; classification under debug logging')
 ASSUMPTIONS = ["a reply returned by the transport carries no status for suds (counts as 200), as the property states"]
 PARTIAL = []
 TRUSTED = []
